@@ -583,6 +583,7 @@ pub fn main(args: &[String]) -> ! {
     let mut rep = Report::default();
     for (i, doc) in docs.iter().enumerate() {
         let root = scratch.join(format!("db{i}"));
+        inflight(doc);
         let (n, aborted) = run_history(doc, &root, &mut out, doc["run"].as_u64().unwrap_or(i as u64));
         rep.evaluations += 1;
         rep.steps += n;
